@@ -31,12 +31,32 @@ type Env struct {
 	pures   map[string]*PureDef
 	capture *[]Term
 	snaps   map[string]map[string]Term
+	reveal  map[string]bool
+	pol     int // +1: the formula is a goal, -1: an assumption, 0: unknown
 	callee  *ssa.Function
 }
 
 type specErr struct{ msg string }
 
 func sfail(f string, a ...interface{}) { panic(specErr{fmt.Sprintf(f, a...)}) }
+
+func (e *Env) flip() *Env {
+	if e.pol == 0 {
+		return e
+	}
+	c := *e
+	c.pol = -e.pol
+	return &c
+}
+
+func (e *Env) neutral() *Env {
+	if e.pol == 0 {
+		return e
+	}
+	c := *e
+	c.pol = 0
+	return &c
+}
 
 func (e *Env) child() *Env {
 	c := *e
@@ -134,7 +154,7 @@ func (e *Env) eval(ex Expr) TV {
 	case *EUn:
 		switch x.Op {
 		case "!":
-			return TV{Not(e.boolTerm(x.X)), types.Typ[types.Bool]}
+			return TV{Not(e.flip().boolTerm(x.X)), types.Typ[types.Bool]}
 		case "-":
 			return TV{Neg(e.intTerm(x.X)), nil}
 		case "*":
@@ -359,7 +379,7 @@ func (e *Env) index(tv TV, idx Expr) TV {
 	if st, ok := under(tv.T).(*types.Slice); ok {
 		s := e.toTerm(tv)
 		i := e.intTerm(idx)
-		p := &PElem{Arr: slArr(s), Idx: Add(slOff(s), i), Elem: st.Elem()}
+		p := &PElem{Arr: slArr(s), Idx: e.st.slIx(s, i), Elem: st.Elem()}
 		return TV{e.st.loadElem(p), st.Elem()}
 	}
 	// raw SMT array (ghost)
@@ -378,11 +398,13 @@ func (e *Env) bin(x *EBin) TV {
 	case "||":
 		return TV{Or(e.boolTerm(x.X), e.boolTerm(x.Y)), boolT}
 	case "==>":
-		return TV{Imp(e.boolTerm(x.X), e.boolTerm(x.Y)), boolT}
+		return TV{Imp(e.flip().boolTerm(x.X), e.boolTerm(x.Y)), boolT}
 	case "<==>":
-		return TV{Eq(e.boolTerm(x.X), e.boolTerm(x.Y)), boolT}
+		n := e.neutral()
+		return TV{Eq(n.boolTerm(x.X), n.boolTerm(x.Y)), boolT}
 	case "==", "!=":
-		a, b := e.eval(x.X), e.eval(x.Y)
+		n := e.neutral()
+		a, b := n.eval(x.X), n.eval(x.Y)
 		eq := e.equal(a, b)
 		if x.Op == "!=" {
 			eq = Not(eq)
@@ -472,11 +494,24 @@ func (e *Env) quant(q *EQuant) TV {
 	body := c.boolTerm(q.Body)
 	side := e.st.pc
 	e.st.pc = savedPC
-	guard := And(append(ranges, side...)...)
+	// side: type invariants of the values read in the body; true for every
+	// instance. As a goal they may be used, as an assumption they are restated.
+	rng := And(ranges...)
+	sd := And(side...)
+	boolT := types.Typ[types.Bool]
 	if q.All {
-		return TV{Forall(vars, Imp(guard, body)), types.Typ[types.Bool]}
+		switch {
+		case e.pol > 0:
+			return TV{Forall(vars, Imp(And(rng, sd), body)), boolT}
+		case e.pol < 0:
+			return TV{Forall(vars, And(sd, Imp(rng, body))), boolT}
+		}
+		return TV{Forall(vars, Imp(rng, body)), boolT}
 	}
-	return TV{Exists(vars, And(guard, body)), types.Typ[types.Bool]}
+	if e.pol < 0 {
+		return TV{Exists(vars, And(rng, sd, body)), boolT}
+	}
+	return TV{Exists(vars, And(rng, body)), boolT}
 }
 
 func (e *Env) call(c *ECall) TV {
@@ -498,7 +533,7 @@ func (e *Env) call(c *ECall) TV {
 		}
 		return e.withHeap(h, func() TV { return e.eval(c.Args[1]) })
 	case "ite":
-		cond := e.boolTerm(c.Args[0])
+		cond := e.neutral().boolTerm(c.Args[0])
 		a, b := e.eval(c.Args[1]), e.eval(c.Args[2])
 		t := a.T
 		if t == nil {
@@ -550,6 +585,25 @@ func (e *Env) call(c *ECall) TV {
 		return TV{st.comp("N!"+key, SI), nil}
 	case "arg":
 		return e.callArg(c)
+	case "ret":
+		// ret(K, i [, j]): j-th result of the i-th call of K since the old state
+		key := exprKey(c.Args[0])
+		i := e.intTerm(c.Args[1])
+		j := 0
+		if len(c.Args) > 2 {
+			j = int(c.Args[2].(*EInt).V.Int64())
+		}
+		rt := e.x.eng.callRets[key]
+		if rt == nil || j >= len(rt) {
+			sfail("no result type known for %q", key)
+		}
+		s := sortOf(rt[j])
+		if s == "" {
+			sfail("composite result of %q is not logged", key)
+		}
+		base := e.oldComp("N!"+key, SI)
+		arr := st.comp(fmt.Sprintf("R!%s!%d", key, j), ArrSort(SI, s))
+		return TV{Sel(arr, Add(base, i)), rt[j]}
 	case "fresh":
 		p := e.toTerm(e.eval(c.Args[0]))
 		return TV{Gt(p, e.oldWM), boolT}
@@ -714,7 +768,23 @@ func (e *Env) call(c *ECall) TV {
 			sub.vars[p.Name] = tv
 			delete(sub.lets, p.Name)
 		}
-		return sub.eval(pd.Body)
+		if !pd.Opaque {
+			return sub.eval(pd.Body)
+		}
+		// opaque: an uninterpreted function; the definition is added for this
+		// instance only where the contract reveals it
+		var args []Term
+		for _, p := range pd.Params {
+			args = append(args, e.toTerm(sub.vars[p.Name]))
+		}
+		if e.reveal[c.Fn] {
+			return sub.eval(pd.Body)
+		}
+		rs := SI
+		if pd.Bool {
+			rs = SB
+		}
+		return TV{UF(rs, "pure."+c.Fn, args...), nil}
 	}
 	sfail("unknown function %s in contract", c.Fn)
 	return TV{}
@@ -813,6 +883,10 @@ func (x *Exec) envFor(st *State, fr *Frame, c *Contract) *Env {
 		for _, l := range c.Lets {
 			e.lets[l.Name] = l.E
 		}
+		e.reveal = map[string]bool{}
+		for _, r := range c.Reveal {
+			e.reveal[r] = true
+		}
 		if e.pkg == nil {
 			e.pkg = x.eng.typesPkg(c.Pkg)
 		}
@@ -820,12 +894,25 @@ func (x *Exec) envFor(st *State, fr *Frame, c *Contract) *Env {
 	return e
 }
 
-func (x *Exec) evalClauseBool(st *State, fr *Frame, cl *Clause, res []TV) Term {
+func (x *Exec) evalClauseBool(st *State, fr *Frame, cl *Clause, res []TV, pol int) Term {
 	c := x.eng.contractFor(fr.fn)
 	e := x.envFor(st, fr, c)
 	e.locals = cl.Kind == "invariant"
 	e.result = res
+	e.pol = pol
 	return x.safeBool(e, cl)
+}
+
+func (x *Exec) safeGoal(e *Env, cl *Clause) Term {
+	c := *e
+	c.pol = 1
+	return x.safeBool(&c, cl)
+}
+
+func (x *Exec) safeAssume(e *Env, cl *Clause) Term {
+	c := *e
+	c.pol = -1
+	return x.safeBool(&c, cl)
 }
 
 func (x *Exec) safeBool(e *Env, cl *Clause) (t Term) {
